@@ -360,7 +360,25 @@ class Filter(Unit):
             i = z3.Int('q')
             return And(unit.calls == 0, SBool(z3.ForAll([i], z3.Implies(z3.And(i >= 0, i < jt), z3.Not(_match(i))))))
 
-        I.loop_specs[keys[0]] = ForSpec('types', lambda I_, it: it.n, lambda I_, it, j: AbsType(j), inv, lambda I_, fr, j: None)
+        for k in keys:
+            I.loop_specs[k] = ForSpec('types', lambda I_, it: it.n, lambda I_, it, j: AbsType(j), inv, lambda I_, fr, j: None)
+
+        # the same filter written without a loop: isinstance(packet, tuple(types)) - by the language definition true iff
+        # some element matches (assumed semantics of isinstance with a tuple)
+        class AbsTypeTuple(object):
+            def __init__(self, n):
+                self.n = n
+
+            def __sym_instancecheck__(self, x):
+                i = z3.Int('q')
+                nt = self.n.t if isinstance(self.n, SInt) else z3.IntVal(self.n)
+                return SBool(z3.Exists([i], z3.And(i >= 0, i < nt, _match(i))))
+
+        def tuple_model(I_, *a):
+            if len(a) == 1 and isinstance(a[0], AbsList):
+                return AbsTypeTuple(a[0].n)
+            return tuple(*a)
+        I.override(tuple, tuple_model, kind='assumed')
 
     def run(self, I):
         E = I.E
